@@ -121,7 +121,7 @@ Cand(T, env, f) ==
                         \cup {VMap(<<E(x, y)>>) : x \in kc, y \in vc}
     [] T.t = "set"   -> LET c == Take(Cand(T.e, env, f), 6) IN
                         {VSet(<<>>), VArr(<<>>), VMap(<<>>), VObj(<<>>), VNull} \cup {VSet(<<x>>) : x \in c}
-                        \cup {VSet(<<x, y>>) : x \in Take(c, 2), y \in Take(c, 3)}
+                        \cup {VSet(<<pr[1], pr[2]>>) : pr \in {pr \in Take(c, 2) \X Take(c, 3) : pr[1] # pr[2]}}
     [] T.t = "ta"    -> {VTa(T.c, <<>>), VTa(T.c, <<1, 2>>),
                          VTa(IF T.c = "Uint8Array" THEN "Int8Array" ELSE "Uint8Array", <<1>>),
                          VArr(<<VNum("1")>>), VObj(<<>>), VNull}
